@@ -99,7 +99,16 @@ def judge_tree(case, obs):
             return ("violation", f"well-formed expression with value {want} gave {first['txt']!r}")
         if e["ex"] and not pfcommon.value_matches(first["frac"], e["n"], e["d"]):
             want = f"{e['n']}/{e['d']}" if e["d"] != 1 else str(e["n"])
-            return ("violation", f"value {first['txt']} but the documented semantics give {want}")
+            why = f"value {first['txt']} but the documented semantics give {want}"
+            if e["d"] != 1:
+                why += f" (= {pfcommon.decimal_text(e['n'], e['d'])})"
+            if "round-tie-decimal-only" in case.get("ties", ()):
+                why += ("; the left operand of `round` is exactly on a rounding tie as a decimal numeral but has no exact binary "
+                        "representation: `round` must round the number as written, half away from zero, not the binary "
+                        "expansion of the float that stores it")
+            elif "round-tie-exact-in-binary" in case.get("ties", ()):
+                why += "; the left operand of `round` is exactly on a rounding tie: documented is half away from zero"
+            return ("violation", why)
         return ("ok", "")
     # the model predicts an in-band error (division by zero, domain, overflow)
     if first["kind"] == "exc":
@@ -139,6 +148,69 @@ def run_tree_cases(o: Outcome, cases, tag):
     return trace_events
 
 
+# ---- the `round` universe (Gen_Expr_ties_*): the value, and what the value selects ----
+CARRIERS = [("plural", "{{plural: %s |one|many}}", "one", "many"), ("#ifexpr", "{{#ifexpr: %s |yes|no}}", "yes", "no")]
+
+
+def _eval_carriers(cases):
+    out = []
+    with pfcommon.Ctx() as c:
+        for case in cases:
+            e = pfcommon.render(case["min"], "spaced")
+            out.append([c.run(fmt % e) for _, fmt, _, _ in CARRIERS])
+    return out
+
+
+def run_tie_cases(o: Outcome, cases):
+    """Trees of the family "ties": value under the 5 renderings (as every tree), then the
+    same expression as the number of plural (in the statement: VIOLATION) and as the
+    condition of #ifexpr (not named in the statement: DRIFT)."""
+    events = run_tree_cases(o, cases, "round-ties")
+    kinds = Counter()
+    for c in cases:
+        for k in c["ties"]:
+            kinds[k + ("" if c["exp"]["kind"] == "val" and c["exp"]["ex"] else " (value not decided)")] += 1
+    o.extra["round_universe"] = {"trees": len(cases), **dict(kinds)}
+    if kinds["round-tie-decimal-only"] < 100 or kinds["round-tie-exact-in-binary"] < 20 or kinds["round-no-tie"] < 100:
+        raise common.TLCError(f"Gen_Expr_ties: the universe lost its decided ties (vacuity guard): {dict(kinds)}")
+    sel = [c for c in cases if c["exp"]["kind"] == "val" and (c["one"] != "u" or c["truth"] != "u")]
+    res = pmap(_eval_carriers, sel)
+    n_nonint = 0
+    for case, obs in zip(sel, res):
+        want = {"plural": None if case["one"] == "u" else ("one" if case["one"] == "eq" else "many"),
+                "#ifexpr": None if case["truth"] == "u" else ("yes" if case["truth"] == "t" else "no")}
+        e = case["exp"]
+        val = pfcommon.decimal_text(e["n"], e["d"]) if e["ex"] else "(inexact)"
+        for (name, fmt, _, _), (k, out) in zip(CARRIERS, obs):
+            if want[name] is None:
+                continue
+            o.evaluations += 1
+            o.shape(("expr-carrier", name, want[name], tuple(sorted(case["ties"]))))
+            if k == "ok" and out.strip() == want[name]:
+                continue
+            wt = fmt % pfcommon.render(case["min"], "spaced")
+            rec = {"kind": "G-expr-carrier", "gen": "round-ties", "fn": name, "min": case["min"], "wikitext": wt,
+                   "expected": want[name], "value": val, "ties": case["ties"], "observed": out if k == "ok" else "EXC " + out}
+            why = (f"{wt} selected {out!r}; the number is {val}, so the documented selection is {want[name]!r}"
+                   + ("; (the expression rounds a decimal tie that has no exact binary representation: round decides on the "
+                      "number as written, half away from zero)" if "round-tie-decimal-only" in case["ties"] else ""))
+            if k != "ok":
+                o.violation(rec, f"{wt} raised {out}", cls=f"{name}-exception")
+            elif name == "plural":
+                o.violation(rec, why, cls="plural-of-expr")
+            elif e["ex"] and e["d"] != 1 and out.strip() == "no":
+                # ifexpr_fn takes int() of the printed value: every non-integer value counts as false
+                # (MediaWiki: non-zero is true).  #ifexpr is not named in the statement: one aggregated DRIFT item
+                n_nonint += 1
+            else:
+                o.note_drift({"call": wt, "model": want[name], "code": out, "note": "#ifexpr is not named in the statement"})
+    if n_nonint:
+        o.extra["ifexpr_noninteger_value_taken_as_false"] = n_nonint
+        o.note_drift({"call": "{{#ifexpr: 2.5 |yes|no}}", "model": "yes", "code": "no", "cases": n_nonint,
+                      "note": "#ifexpr (not named in the statement) takes every non-integer value as false"})
+    return events
+
+
 def obs_record(a):
     if a["kind"] == "val":
         n, d, close = pfcommon.small_fraction(a["frac"])
@@ -168,12 +240,27 @@ UNA = ["-", "+", "not", "abs", "floor", "ceil", "trunc", "sqrt", "exp", "ln", "s
 UNAW = [8, 3, 6, 5, 4, 4, 4, 1, 1, 1, 1, 1, 1, 1, 1, 1]
 
 
+# numerals of Expr!TieLitTable: decimal ties without an exact binary representation, near-ties, ...
+TIE_LITS = ["0.15", "0.35", "0.45", "1.45", "2.55", "0.005", "0.075", "0.285", "0.995", "1.005", "2.675", "1.445",
+            "0.0015", "0.1235", "1.0005", "0.125", "0.375", "0.0625", "2.674", "2.676", "1.0049", "25", "250", "0.1", "0.2"]
+DIGITS = [["lit", "0"], ["lit", "1"], ["lit", "2"], ["lit", "3"], ["un", "-", ["lit", "1"]], ["un", "-", ["lit", "2"]],
+          ["lit", "1.5"], ["lit", "2.5"]]
+
+
 def rand_tree(rng, depth):
     if depth == 0 or rng.random() < 0.18:
         return ["lit", rng.choice(LITS)]
     if rng.random() < 0.25:
         return ["un", rng.choices(UNA, UNAW)[0], rand_tree(rng, depth - 1)]
-    return ["bin", rng.choices(BIN, BINW)[0], rand_tree(rng, depth - 1), rand_tree(rng, depth - 1)]
+    op = rng.choices(BIN, BINW)[0]
+    if op == "round" and rng.random() < 0.6:
+        # the left operand of round is a written numeral (possibly negated / halved / doubled / a quotient)
+        lit = ["lit", rng.choice(TIE_LITS)]
+        left = rng.choice([lit, lit, ["un", "-", lit], ["bin", "/", lit, ["lit", "2"]], ["bin", "*", ["lit", "2"], lit],
+                           ["bin", "/", ["lit", rng.choice(["1", "3", "7", "57", "107", "201"])],
+                            ["lit", rng.choice(["40", "200", "400"])]]])
+        return ["bin", "round", left, rng.choice(DIGITS) if rng.random() < 0.8 else rand_tree(rng, depth - 1)]
+    return ["bin", op, rand_tree(rng, depth - 1), rand_tree(rng, depth - 1)]
 
 
 def part_expr(o: Outcome, thorough: bool):
@@ -195,6 +282,15 @@ def part_expr(o: Outcome, thorough: bool):
     if len(cases) < 1000:
         raise common.TLCError("Gen_Expr produced too few cases")
     events = run_tree_cases(o, cases, "exhaustive")
+    # ---- M + G, `round` on the number as written: decimal ties without an exact binary representation,
+    # ties exact in binary, near-ties, negative / fractional digit counts, reached as numerals, negated, as
+    # quotients and scaled by powers of two (the cfg also checks the ladder, the documented evaluation and
+    # the declarative "nearest multiple, away from zero at a tie" on every tree of the family)
+    r = tlc("Gen_Expr", "Gen_Expr_ties_T.cfg" if thorough else "Gen_Expr_ties_Q.cfg", workers=1, timeout=3000)
+    o.add_tlc("Gen_Expr_ties(+MC round reference)", r)
+    tcases = r.cases
+    tie_events = run_tie_cases(o, tcases)[::2]     # the minimal renderings go through Trace_Expr too
+    cases = cases + tcases
     # which paths of the model the cases exercise (TLC's -coverage runs out of memory on the
     # recursive evaluators, so the counts are taken from the generated cases)
     cov = Counter()
@@ -223,16 +319,24 @@ def part_expr(o: Outcome, thorough: bool):
                                 "error_predicted": sum(1 for c in scases if c["exp"]["kind"] == "err")}
     if scases:
         o.sample({"sampled_expr": " ".join(max(scases, key=lambda c: len(c["min"]))["min"][:60])})
-    allev = sevents + events[: (10000 if thorough else 4000)]
+    allev = sevents + tie_events + events[: (10000 if thorough else 4000)]
     bad, drift, excerr = validate_expr_trace(o, allev)
     o.traces += len(allev)
     seen = 0
+    # what kinds of roundings TLC found in the tree the tokens were rendered from (EmitTie)
+    ties_of = {tuple(c[w]): c["ties"] for c in scases + tcases if "ties" in c for w in ("min", "full")}
     for b in bad:
         toks, a = allev[b["i"] - 1]
+        x = b["expected"]
+        why = (f"Trace_Expr rejects the recorded evaluation of #expr {' '.join(toks)[:200]}: observed {a['txt']!r}, specification "
+               + (pfcommon.decimal_text(x["n"], x["d"]) if x["kind"] == "val" and x["ex"] else str(x)))
+        if "round-tie-decimal-only" in ties_of.get(tuple(toks), ()):
+            why += ("; the expression rounds a decimal numeral that is exactly on a tie but has no exact binary representation: "
+                    "`round` must round the number as written, half away from zero, not the binary expansion of the float")
         o.violation(
             {"kind": "V-expr", "toks": toks, "observed": [a["kind"], a["txt"]], "expected": b["expected"],
-             "wikitext": expr_text(toks, "spaced")},
-            f"Trace_Expr rejects the recorded evaluation of #expr {' '.join(toks)[:200]}: observed {a['txt']!r}, specification {b['expected']}",
+             "ties": ties_of.get(tuple(toks), []), "wikitext": expr_text(toks, "spaced")},
+            why,
             cls="V-" + _expr_cls(toks, a),
         )
         seen += 1
@@ -665,6 +769,16 @@ def selftest() -> int:
     bad1, _, _ = validate_expr_trace(None, ev2)
     print(f"Trace_Expr: recorded trace rejected={len(bad0)}; with 2^3^2 corrupted to 512: rejected={len(bad1)} {bad1[:1]}")
     ok &= (not bad0) and len(bad1) == 1 and bad1[0]["i"] == 3
+    # 1b. round on the number as written: a decimal tie without an exact binary representation is decided
+    # (2.68, not the 2.67 of the binary expansion); a tie reached through a sum is not (either answer accepted)
+    F = lambda t: {"kind": "val", "txt": t, "frac": Fraction(t)}
+    tie = [(["2.675", "round", "2"], F("2.68")), (["-", "1.005", "round", "2"], F("-1.01")), (["107", "/", "40", "round", "2"], F("2.68")),
+           (["0.125", "round", "2"], F("0.13")), (["0.5", "+", "0.505", "round", "2"], F("1.01")), (["0.5", "+", "0.505", "round", "2"], F("1"))]
+    t0, _, _ = validate_expr_trace(None, tie)
+    tie2 = [(t, F({"2.68": "2.67", "-1.01": "-1"}.get(a["txt"], a["txt"]))) for t, a in tie]
+    t1, _, _ = validate_expr_trace(None, tie2)
+    print(f"Trace_Expr round ties: as documented rejected={len(t0)}; rounded from the binary expansion: rejected at {[b['i'] for b in t1]}")
+    ok &= (not t0) and [b["i"] for b in t1] == [1, 2, 3]
     # 2. Trace_StrFns
     S = lambda t: {"k": "s", "s": atoms_of(t), "i": 0}
     I = lambda i: {"k": "i", "s": [], "i": i}
